@@ -27,9 +27,17 @@ func init() {
 		ID: "C02", Level: "exploration",
 		Rule: "case = (generated measurement table signed genuinely: any subset of VMSA counts incl. non-GCE ones, colliding / wrong-length / empty values, optional SVSM, 0..6 TDX rows with duplicate RAM sizes; report measurement drawn from endorsed values, their one-bit neighbours, random, zero, wrong length; request: VMSA count / RAM size / expected digest). " +
 			"Oracle: accept => measurement is 48 bytes (report-taking entry points) and a member of listedFor(request); listedFor(0)=all values+SVSM, listedFor(n)={measurements[n]} (+SVSM if n=1); TDX: MRTDs of rows with ram_gib==request compared as integers; a supplied digest must equal the endorsed one; derived policies must carry exactly those constraints and never an empty allow-list. " +
-			"non-trivial = distinct (entry point, request kind, measurement kind, outcome class) cells",
+			"non-trivial = distinct (entry point, request kind, measurement kind, outcome class) cells. " +
+			"Appended families, same rule, judged per call against the endorsement and request of THAT call: seq = sessions over 2-3 endorsements sharing count keys / RAM sizes on values the caller keeps " +
+			"(options structs, measurement / digest / quote buffers refilled in place, closures, base policies, a reused decode receiver), probed with values another endorsement of the session lists for the same request, " +
+			"with the previous call's measurement and with a value scribbled into a policy the library returned earlier; returned policies are re-judged after all later calls; failing calls in between. " +
+			"cmix = different endorsements / requests / entry points in flight together. combo = digest x count x measurement, base policy x overwrite x endorsement source x test-only switch x cancelled context, " +
+			"requests congruent to a listed count mod 2^8 / 2^16 / 2^31, keys 0 and 2^32-1, tables of 20-60 entries, TDX rows with a non-48-byte MRTD. getter = endorsement fetched through the caller's getter that fails, " +
+			"hands out another object / garbage / its previous answer, and is retried (also with another count)",
 		Assumptions: []string{"endorsements are genuinely signed so that only the measurement clause decides", "SVSM measurement counts as listed for requests 0 and 1 (README: with an SVSM the VMSA count is 1)",
-			"verify.SNP / EndorsementProto take a measurement option rather than a report, so only membership (not the 48-byte length) is required of them"},
+			"verify.SNP / EndorsementProto take a measurement option rather than a report, so only membership (not the 48-byte length) is required of them",
+			"when the endorsement is fetched through the caller's getter, 'that endorsement' is what the getter handed out during the call; if it handed out nothing usable an acceptance is judged against every endorsement of the session",
+			"an endorsed TDX row with a zero-length MRTD (never produced by the signer) turns the derived allow-list into a wildcard; observed and counted, judging gated by judgeEmptyMrtdRows"},
 		ShardsQuick: 8, ShardsThor: 16, TimeoutS: 600, TimeoutThor: 3000, Run: run,
 	})
 }
@@ -186,6 +194,8 @@ func run(c *core.Ctx) {
 	roots := gen.Pool(pki.Root)
 	vcek := gen.Vcek(now)
 	ctx := context.Background()
+	dead, cancel := context.WithCancel(ctx)
+	cancel()
 	n := c.N(1200, 20000)
 	accepts := map[string]int{}
 	rejects := map[string]int{}
@@ -526,6 +536,7 @@ func run(c *core.Ctx) {
 		c.Cell("concurrent|goroutines=%d|bad-accepted=%v", ngor, badAccepted > 0)
 		c.End(i)
 	}
+	runAudit(c, &world{nb: nb, now: now, pki: pki, roots: roots, vcek: vcek, ctx: ctx, dead: dead}, n+nconc)
 	for _, e := range []string{"verify.SNP", "verify.EndorsementProto+SNP", "SNPValidateFunc", "SevValidate", "TdxValidate", "verify.Endorsement+digest", "SNPValidateFunc/concurrent"} {
 		c.Count("accept-listed/"+e, accepts[e])
 		c.Count("reject-unlisted/"+e, rejects[e])
